@@ -63,6 +63,9 @@ VARIANTS = [
     ("C03", "neutral", P + "sum.py", "        numpy.bitwise_not(selection, selection)\n        numpy.bitwise_and(selection, weights > 0.0, selection)\n        q = q[selection]", "        selection = numpy.bitwise_not(selection)\n        numpy.bitwise_and(selection, weights > 0.0, selection)\n        q = q[selection]", "fresh mask instead of in-place"),
     ("C03", "mutant", P + "fraction.py", "        w = w * weights\n        w[numpy.isnan(w)] = 0.0\n        w[w < 0.0] = 0.0\n", "        w = numpy.array(w, dtype=numpy.float64)\n        w[numpy.isnan(w)] = 0.0\n        w[w < 0.0] = 0.0\n        w = w * weights\n", "inf * 0 weight reaches the numerator as NaN"),
     # ---------------- round f additions
+    ("C03", "mutant", P + "categorize.py", "all_weights_one and isinstance(self.value, Count) and self.value.transform is identity:", "all_weights_one and isinstance(self.value, Count):", "counting fast path for a transformed Count"),
+    ("C03", "mutant", P + "count.py", "t = self.transform(weights[weights > 0.0])", "t = self.transform(weights)", "zero-weight rows transformed"),
+    ("C03", "neutral", P + "count.py", "                t = self.transform(weights[weights > 0.0])\n", "                counted = weights[weights > 0.0]\n                t = self.transform(counted)\n", "mask through a local"),
     ("C05", "mutant", "histogrammar/defs.py", "            weights = numpy.where(weights > 0.0, weights, 0.0)\n", "            weights = numpy.asarray(weights, dtype=numpy.float64)\n", "weight array not normalised"),
     ("C05", "mutant", "histogrammar/defs.py", "        elif not weights > 0.0:\n            return\n", "", "non-positive scalar weight reaches _numpy"),
     ("C05", "neutral", "histogrammar/defs.py", "        elif not weights > 0.0:\n            return\n        self._numpy(data, weights, shape=[None])", "        elif not 0.0 < weights:\n            return None\n        self._numpy(data, weights, shape=[None])", "mirrored test, explicit None"),
